@@ -31,9 +31,17 @@ class NotEncodable(Exception):
     pass
 
 
+# token kinds of the character-encoder model: what one output item denotes
+TOK_ENTITY, TOK_NUMREF, TOK_LITERAL = 1, 2, 3
+
+
 class SInt:
     def __init__(self, e):
         self.e = e
+
+
+class SChar(SInt):
+    """One character of a str, as its code point (model of str for the character-wise encoders)."""
 
 
 class SFloat:
@@ -635,17 +643,23 @@ class Interp:
             if not caught:
                 continue
             hc = z3.Or(*[c for c, _ in caught])
-            # handler runs in the pre-try state: sound only if the body is side-effect free before raising; handlers here
-            # are 'raise Other(...)' or 'return <const>' (checked)
-            for st in h.body:
-                if not isinstance(st, (ast.Raise, ast.Return, ast.Pass, ast.Expr)):
-                    raise NotEncodable('except handler with statements other than raise/return')
-            saved = ctx.heap
+            # handler runs in the pre-try state: sound when the try body is ONE statement that raises before it has any effect
+            simple = all(isinstance(st, (ast.Raise, ast.Return, ast.Pass, ast.Expr)) for st in h.body)
+            if not simple and len(s.body) != 1:
+                raise NotEncodable('except handler with control flow after a multi-statement try body')
+            saved_heap = ctx.heap
             ctx.heap = heap_before
-            he, hp = self.block(h.body, dict(env_before), fr, hc)
-            ctx.heap = saved
-            if he is not None:
-                raise NotEncodable('except handler falls through')
+            he, hp = self.block(h.body, dict(env_before), fr, z3.And(pc, hc) if False else hc)
+            if he is None:
+                ctx.heap = saved_heap
+            else:
+                # handler falls through: merge its state with the normal path's
+                if env1 is None:
+                    env1, pc1 = he, hp
+                else:
+                    env1, heap3 = self.merge_env(hc, he, ctx.heap, env1, saved_heap)
+                    ctx.heap = heap3
+                    pc1 = z3.Or(pc1, hp)
         ctx.raises.extend(remaining)
         return env1, pc1
 
@@ -712,8 +726,14 @@ class Interp:
                         return _Bound(m, o)
                     return m
                 raise NotEncodable('attribute %s of model object' % e.attr)
+            if isinstance(o, SChar) and e.attr == 'encode':
+                return _CharMethod('encode', o)
+            if isinstance(o, _EncodedChar) and e.attr == 'decode':
+                return _CharMethod('decode', o)
             if is_sym(o):
                 raise NotEncodable('attribute %s of symbolic value' % e.attr)
+            if isinstance(o, str) and e.attr == 'join':
+                return _CharMethod('join', o)
             return getattr(o, e.attr)
         if isinstance(e, ast.BinOp):
             return self.binop(e.op, self.eval(e.left, env, fr, pc), self.eval(e.right, env, fr, pc), pc)
@@ -758,6 +778,15 @@ class Interp:
         if isinstance(e, ast.Call):
             return self.call_expr(e, env, fr, pc)
         if isinstance(e, ast.JoinedStr):
+            vals = e.values
+            if (len(vals) == 3 and isinstance(vals[0], ast.Constant) and vals[0].value == '&#' and isinstance(vals[2], ast.Constant)
+                    and vals[2].value == ';' and isinstance(vals[1], ast.FormattedValue)):
+                fmt = vals[1].format_spec
+                spec = fmt.values[0].value if fmt is not None and fmt.values and isinstance(fmt.values[0], ast.Constant) else ''
+                if spec in ('', 'd', '03d'):
+                    v = self.eval(vals[1].value, env, fr, pc)
+                    if is_sym(v):
+                        return (TOK_NUMREF, v)       # model: a decimal numeric character reference to v
             return '<fstring>'
         if isinstance(e, ast.Dict):
             return {self.eval(k, env, fr, pc): self.eval(v, env, fr, pc) for k, v in zip(e.keys, e.values)}
@@ -1050,6 +1079,24 @@ class Interp:
         if isinstance(f, _Closure):
             return self._call_closure(f, args, kwargs, pc)
         sym = any(_has_sym(a) for a in args) or any(_has_sym(v) for v in kwargs.values())
+        if isinstance(f, _CharMethod):
+            if f.name == 'encode':
+                if args[:2] != ['ascii', 'xmlcharrefreplace']:
+                    raise NotEncodable('str.encode model only for (ascii, xmlcharrefreplace)')
+                cp = f.obj.e
+                # CPython: code points < 128 encode to themselves, all others (surrogates included) to &#N;
+                kind = z3.If(cp < ctx.int_val(128), ctx.int_val(TOK_LITERAL), ctx.int_val(TOK_NUMREF))
+                return _EncodedChar((SInt(kind), SInt(cp)))
+            if f.name == 'decode':
+                return f.obj.tok
+            if f.name == 'join':
+                if f.obj != '':
+                    raise NotEncodable('str.join with a separator')
+                return list(args[0])
+        if f is ord and sym:
+            return SInt(ctx.lift_int(args[0]))
+        if isinstance(f, types.BuiltinMethodType) and isinstance(getattr(f, '__self__', None), list) and f.__name__ in ('append', 'extend'):
+            return f(*args)
         if f is math.ldexp:
             r, ovf = ctx.ldexp(args[0], args[1], pc)
             ctx.raises.append((z3.And(pc, ovf), 'OverflowError'))
@@ -1206,6 +1253,16 @@ class _Closure:
     """A nested def: evaluated by inlining with the defining environment visible (read-only)."""
     def __init__(self, node, env, fr):
         self.node, self.env, self.fr = node, env, fr
+
+
+class _CharMethod:
+    def __init__(self, name, obj):
+        self.name, self.obj = name, obj
+
+
+class _EncodedChar:
+    def __init__(self, tok):
+        self.tok = tok
 
 
 class _Super:
